@@ -128,3 +128,11 @@ package proto
 //@   invariant -1 <= rangeindex && rangeindex < len(q.Parameters)
 //@   invariant len(b.Buf) > old(len(b.Buf)) && forall k in 0..old(len(b.Buf)) :: b.Buf[k] == old(b.Buf[k])
 //@   invariant arrayof(b.Buf)[offset(b.Buf) + old(len(b.Buf))] == 1 && uvAt(arrayof(b.Buf), offset(b.Buf) + old(len(b.Buf)) + 1, len(q.ID)) && old(len(b.Buf)) + 1 + uvsize(len(q.ID)) <= len(b.Buf)
+
+// ---------------------------------------------------------------------------
+// C03: which server packets carry a block that is compressed when compression was negotiated
+// (the native protocol compresses Data, Totals and Extremes blocks; Log and ProfileEvents blocks
+// are always sent uncompressed).  The receive loop of the client enables the decompressor for a
+// packet exactly when this says so.
+//@ contract (c ServerCode) Compressible() (r) props(C03)
+//@   ensures r == (c == 1 || c == 7 || c == 8) {data-totals-and-extremes-blocks-are-compressed-nothing-else}
